@@ -103,6 +103,8 @@ def pureOp (st : St) (ws : List String) : Option (St × List String) :=
       pure (st, [line])
   | ["b64e", h] => (unhex h).map fun b => (st, [hexOf (Auth.encode b)])
   | ["b64d", h] => (unhex h).map fun b => (st, [hexOf (Auth.decode b)])
+  | ["b64rt", h] => (unhex h).map fun b =>
+      (st, [s!"enc={hexOf (Auth.encode b)} dec={hexOf (Auth.decode (Auth.encode b))}"])
   | "auth" :: realm :: n :: rest => do
       let realm ← unhex realm
       let n := natOf n
